@@ -26,6 +26,9 @@ def walk(v, seen=None):
         return seen
     if isinstance(v, (list, dict, gfapy.OrientedLine, gfapy.FieldArray, gfapy.CIGAR.Operation)):
         seen[id(v)] = v
+    elif not isinstance(v, (int, float, str, bool, bytes, type(None), tuple)) and not gfapy.is_placeholder(v):
+        # any other object with state of its own (e.g. gfapy.LastPos, whose value can be assigned)
+        seen[id(v)] = v
     if isinstance(v, gfapy.FieldArray):
         seen[id(v._data)] = v._data
         for x in v._data:
@@ -86,6 +89,8 @@ def scramble(line):
                     obj.line = "zz" + str(obj.line)
             elif isinstance(obj, gfapy.FieldArray):
                 obj._data.append(obj._data[0] if obj._data else 1)
+            elif isinstance(obj, gfapy.LastPos):
+                obj.value = obj.value + 1
             elif isinstance(obj, dict):
                 obj["__edited__"] = [1]
             elif isinstance(obj, list):
